@@ -36,6 +36,7 @@ def explore(prop, tier, run_seed, max_examples=30, steps=25):
             box["examples"] += 1
             box["sims"].append(self.sim)
             W.seams.begin_run(W.stream(self.sim.seed, "rngseam"), "steady", None)
+            self.sim.do({"op": "ENV", "columns": self.sim.columns})
             self.sim.setup()
             self.check()
 
